@@ -92,6 +92,11 @@ CHECKS = {
     note='Trusted: z3, the FS/pool/psutil stubs (cases touch disjoint files, so per-case counters cover all interleavings), header written before the interruption. Grids up to 2x2(+must-include) / 3x2 thorough, <=1 failing case, one interruption. Real process kills and partial writes are outside.',
     technique='symbolic execution of the real function over a symbolic file system with crash counters as z3 integers (path exploration + z3), replay on the real code',
     design='2/C18'),
+ 'C16': dict(
+    text='Bounded SMT validity checking of the construction bookkeeping: find_geometry_from_config (all 32x4 presence patterns of the configuration keys, symbolic values), PhysicalObjSpherical.set_geometry (symbolic geometry, np.linspace exact, <=4 slices) and 3-layer stacks: contiguity, strictly increasing slices, telescoping volume sums, enclosed-mass monotonicity, surface gravity, world mass rule; scale_from_world / build_from_world executed on real dict graphs with symbolic leaves (lengths scaled, volume fractions preserved, inputs not mutated); the variant-naming block executed on a z3 string with an unwinding assertion on its loop for chains of derivations.',
+    note='Trusted: z3 (NRA and strings), symx executor, method extraction with a duck-typed object. The full class machinery of world construction and the shipped configurations are reached only through the replay runner (real build_world/scale_from_world/build_from_world).',
+    technique='symbolic execution of extracted methods + z3 nonlinear real arithmetic and string theory; unwinding assertion for the naming loop; replay on the real API',
+    design='2/C16'),
 }
 NOT_YET = {}
 ALL = ['C%02d' % i for i in range(1, 21)]
